@@ -19,6 +19,8 @@ S14c(e) == ~e.dtor_during_closure
 \* a panicking closure is reported as Panic; the wrapper reports poisoning from then on
 S14d(e) == /\ ((e.settled # "-" /\ e.stable) => e.settled = e.expect_settled)
            /\ ((e.paniced /\ e.alive /\ e.stable /\ e.k = "step") => e.poisoned)
+           \* ... also while a later job is failing on the poisoned mutex (sampled inside that job's panic)
+           /\ e.busy_not_poisoned = 0
 \* closures only ever run while the value exists
 S14e(e) == ~e.closure_after_dtor
 
